@@ -90,6 +90,13 @@ def cases(rng, tier, Case):
     for b in bad:
         for d in ("[a](%s)" % b, "<%s>" % b, "![a](%s \"t\")" % b, "[r]: %s\n\n[r]" % b, "[a][r]\n\n[r]: <%s>" % b, "- [r]: %s 't'\n\n![r]" % b):
             res.append(Case("parse Cs 100 TR %s" % hx(d), "literal", {"cfg": "Cs", "src": hx(d), "url": b, "literal": [b]}))
+    # the validator in force at PARSE time decides (it is a public field): plugins registered while a permissive validator
+    # was installed must not keep it (seed C04-12); harness op V, oracle only
+    for url in ("javascript:alert(1)", "vbscript:x", "file:///etc/passwd", "data:text/html,x", "JaVaScRiPt:alert(1)"):
+        d = "[a](%s) ![b](%s) <%s>\n\n[r]: %s\n\n[r] ![r]" % (url, url, url, url)
+        for pat in ("V0;+C;V1", "V0;+l;+i;+a;+r;V1;+p", "V0;+p;+l;V1;+i;+r;+a", "+C;V0;P;V1", "V0;+C;P;V1", "V0;V1;+C", "+p;V0;+l;+i;V1;+a;+r;+s"):
+            ops = ";".join(("P" + hx(d)) if x == "P" else x for x in pat.split(";")) + ";P" + hx(d)
+            res.append(Case("hist 100 TR %s" % ops, "validator-hist", {"cfg": "C", "src": hx(d), "url": url}, compare=False))
     for _ in range(n // 3):
         url = rng.choice(SCHEMES) + rng.choice(TAILS)
         for _ in range(rng.choice([0, 1, 2])):
@@ -128,6 +135,10 @@ def oracle(case, io, mo):
             if io.strip() == "ok 1" and all(b < 128 for b in u) and browser_dangerous(u):
                 return "validate_link accepts %r" % u
         return None
+    if case.tag == "validator-hist":
+        io = io[io.rindex(";P[") + 3:-1] if ";P[" in io else io[io.index("P[") + 2:-1]
+        if not io.startswith("ok"):
+            return "did not return normally: " + io[:120]
     f = fields(io)
     html = unhx(f["html"])
     ok, msg, elems = read_html(html, sourcepos="S" in case.params["cfg"])
